@@ -365,7 +365,9 @@ InScope(modes, umasks, nmax, wst) ==
 IsInitial == pc = "run" /\ used = {} /\ fdt = {}
 QuickTwo == /\ InScope({Bits(416)}, {Bits(18)}, 2, {"differs"})
             /\ \A p \in DOMAIN scn.files : scn.files[p].arg = "walked" => scn.files[p].kind = "reg"
-QuickScope    == LenBound /\ (IsInitial \/ InScope({Bits(416)}, AllUmasks, 1, Statuses) \/ QuickTwo)
+QuickOne == /\ InScope({Bits(416)}, AllUmasks, 1, Statuses)
+            /\ scn.umask = Bits(63) => \A p \in DOMAIN scn.files : scn.files[p].kind = "reg"
+QuickScope    == LenBound /\ (IsInitial \/ QuickOne \/ QuickTwo)
 ThoroughScope == LenBound /\ (IsInitial \/ InScope(AllModes, AllUmasks, 1, Statuses)
                                         \/ InScope({Bits(416)}, {Bits(18)}, 2, Statuses))
 TinyScenarios == Scn1({Bits(18)}, {Bits(416)})
